@@ -113,7 +113,7 @@ pub open spec fn re_ok(e: RE) -> bool
         BaseRegLan::Epsilon => true,
         BaseRegLan::Range(c) => cs_wf(c),
         BaseRegLan::Concat(a, b) => re_ok(*a) && re_ok(*b),
-        BaseRegLan::Loop(a, r) => re_ok(*a) && lr_wf(r),
+        BaseRegLan::Loop(a, r) => re_ok(*a) && lr_wf(r) && !lr_is_zero(r),
         BaseRegLan::Complement(a) => re_ok(*a),
         BaseRegLan::Union(l) => forall|i: int| 0 <= i < l@.len() ==> re_ok(*#[trigger] l@[i]),
         BaseRegLan::Inter(l) => forall|i: int| 0 <= i < l@.len() ==> re_ok(*#[trigger] l@[i]),
@@ -127,7 +127,7 @@ pub open spec fn kids_ok(k: BaseRegLan) -> bool {
         BaseRegLan::Epsilon => true,
         BaseRegLan::Range(c) => cs_wf(c),
         BaseRegLan::Concat(a, b) => re_ok(*a) && re_ok(*b),
-        BaseRegLan::Loop(a, r) => re_ok(*a) && lr_wf(r),
+        BaseRegLan::Loop(a, r) => re_ok(*a) && lr_wf(r) && !lr_is_zero(r),
         BaseRegLan::Complement(a) => re_ok(*a),
         BaseRegLan::Union(l) => forall|i: int| 0 <= i < l@.len() ==> re_ok(*#[trigger] l@[i]),
         BaseRegLan::Inter(l) => forall|i: int| 0 <= i < l@.len() ==> re_ok(*#[trigger] l@[i]),
